@@ -138,8 +138,8 @@ add('C16', "spec/LeftRec.tla evaluates PegGrammar's left-call relation (Nullable
     "TLA+ spec LeftRec/PegGrammar (static relation, exhaustive rule graphs) evaluated by TLC + replay of verdicts, marks and input battery", "5 C16, 3.7")
 
 add('C10', "spec/ApiHistory.tla models the compile cache, the shared grammar objects and the handles callers keep; TLC proves HistoryIndependent and "
-    "ModelStable for the required design over all histories up to MaxCalls of the call pool (compile / tatsu.parse / to_python_sourcecode / "
-    "model.parse on earlier handles, valid and failing) and refutes them for the former design (kept as configuration AsIs = TRUE to document KF-C10-1). "
+    "ModelStable for the required design over all histories up to MaxCalls of the call pool (compile / tatsu.parse / to_python_sourcecode / Grammar.load / "
+    "model.parse on earlier handles, valid and failing; three grammars, one of them with a rule type named like a grammar-model class) and refutes them for the former design (kept as configuration AsIs = TRUE to document KF-C10-1). "
     "The state graph is covered edge by edge with histories, each replayed in its own interpreter; every response is compared with the same call "
     "executed alone in a fresh interpreter. spec/SemIdentity.tla models the process-wide action cache against object identity (addresses are reused once an "
     "object is gone): TLC proves ActionsOfGivenObject for the design as coded (keyed by the object) and refutes the by-address design, whose behaviours "
